@@ -161,11 +161,90 @@ func WriteEvidence(e *Evidence) error {
 		dir = d
 	}
 	os.MkdirAll(dir, 0o755)
+	path := filepath.Join(dir, e.PropertyID+".json")
+	if os.Getenv("VERIF_EVIDENCE_MERGE") == "1" {
+		if old, err := os.ReadFile(path); err == nil {
+			var prev Evidence
+			if json.Unmarshal(old, &prev) == nil && prev.Tier == e.Tier {
+				mergeEvidence(e, &prev)
+			}
+		}
+	}
 	b, err := json.MarshalIndent(e, "", " ")
 	if err != nil {
 		return err
 	}
-	return os.WriteFile(filepath.Join(dir, e.PropertyID+".json"), append(b, '\n'), 0o644)
+	return os.WriteFile(path, append(b, '\n'), 0o644)
+}
+
+// mergeEvidence folds the evidence of an earlier part of the same check
+// (another engine) into e: counts add up, exhaustive is the conjunction.
+func mergeEvidence(e, prev *Evidence) {
+	e.WallS += prev.WallS
+	e.Violations += prev.Violations
+	for _, a := range prev.Assumptions {
+		dup := false
+		for _, b := range e.Assumptions {
+			if a == b {
+				dup = true
+			}
+		}
+		if !dup {
+			e.Assumptions = append(e.Assumptions, a)
+		}
+	}
+	num := func(v any) (float64, bool) {
+		switch x := v.(type) {
+		case float64:
+			return x, true
+		case int:
+			return float64(x), true
+		case int64:
+			return float64(x), true
+		}
+		return 0, false
+	}
+	for k, pv := range prev.Coverage {
+		cv, ok := e.Coverage[k]
+		if !ok {
+			e.Coverage[k] = pv
+			continue
+		}
+		switch k {
+		case "exhaustive":
+			a, _ := pv.(bool)
+			b, _ := cv.(bool)
+			e.Coverage[k] = a && b
+		case "samples", "capped_scenarios":
+			var l []any
+			if x, ok := pv.([]any); ok {
+				l = append(l, x...)
+			}
+			switch x := cv.(type) {
+			case []any:
+				l = append(l, x...)
+			case []string:
+				for _, s := range x {
+					l = append(l, s)
+				}
+			}
+			e.Coverage[k] = l
+		case "rule":
+			e.Coverage[k] = fmt.Sprintf("[scheduler level] %v [generated-code level] %v", pv, cv)
+		case "max_depth":
+			a, _ := num(pv)
+			b, _ := num(cv)
+			if a > b {
+				e.Coverage[k] = int64(a)
+			}
+		default:
+			a, ok1 := num(pv)
+			b, ok2 := num(cv)
+			if ok1 && ok2 {
+				e.Coverage[k] = int64(a + b)
+			}
+		}
+	}
 }
 
 // ---------------------------------------------------------------- replays
